@@ -18,6 +18,8 @@ import (
 // or a panic escaping the notifier is a FAIL.
 type raceArea struct{}
 
+const raceTargets = 6
+
 type rTarget struct {
 	mu    sync.Mutex
 	seen  map[uint64]int
@@ -63,15 +65,15 @@ func (raceArea) Run(line string) string {
 	iters := hx.Atoi(f[3])
 	var recs atomic.Int64
 	ns := []*notifier.Notifier{notifier.New(func(error) { recs.Add(1) }), notifier.New(func(error) { recs.Add(1) })}
-	plain := make([]*rTarget, 0, numTargets)
-	ts := make([]notifier.Target, numTargets)
+	plain := make([]*rTarget, 0, raceTargets)
+	ts := make([]notifier.Target, raceTargets)
 	for i := range ts {
-		if isBatch[i] {
-			b := &rBatchTarget{rTarget: rTarget{seen: make(map[uint64]int), boom: panics[i]}}
+		if isBatch(i) {
+			b := &rBatchTarget{rTarget: rTarget{seen: make(map[uint64]int), boom: panics(i)}}
 			ts[i] = b
 			plain = append(plain, &b.rTarget)
 		} else {
-			p := &rTarget{seen: make(map[uint64]int), boom: panics[i]}
+			p := &rTarget{seen: make(map[uint64]int), boom: panics(i)}
 			ts[i] = p
 			plain = append(plain, p)
 		}
@@ -94,11 +96,11 @@ func (raceArea) Run(line string) string {
 				n := ns[r.Intn(2)]
 				switch x := r.Intn(100); {
 				case x < 25:
-					n.Register(ts[r.Intn(numTargets)], r.Intn(4), hx.Pick(r, names), hx.Pick(r, names))
+					n.Register(ts[r.Intn(raceTargets)], r.Intn(4), hx.Pick(r, names), hx.Pick(r, names))
 				case x < 55:
 					n.NotifyWithData(hx.Pick(r, names), next.Add(1), n)
 				case x < 63:
-					n.Unregister(ts[r.Intn(numTargets)])
+					n.Unregister(ts[r.Intn(raceTargets)])
 				case x < 71:
 					n.RegisterFromNotifier(ns[r.Intn(2)])
 				case x < 76:
